@@ -251,8 +251,13 @@ package reflect
 // decoder.go : struct and value decoders (mutually recursive; measure maxdepth)
 
 //@ func (d *tDecoder) Decode(b []byte, base unsafe.Pointer, sd *structDesc, maxdepth int) (n int, err error)
+//@   ghost lvl Int
 //@   requires d != nil && spanInv(&d.s) && wfSD(sd) && base != nil && 0 <= maxdepth && len(b) <= MAXIN
+//@   requires c15_budget: maxdepth >= maxDepthLimit + 2 - 2*lvl
 //@   decreases maxdepth
+//@   call decodeType ghost lvl = lvl + 1
+//@   ensures c15_zero: maxdepth == 0 ==> err == box(errDepthLimitExceeded, "*thrift.ProtocolException")
+//@   ensures c15_accept48: lvl <= 48 ==> maxdepth > 0
 //@   modifies M, fields(&d.s), $brk
 //@   ensures 0 <= n && n <= len(b)
 //@   ensures spanInv(&d.s) && old($brk) <= $brk
@@ -263,8 +268,14 @@ package reflect
 
 //@ func (d *tDecoder) decodeType(t *tType, b []byte, p unsafe.Pointer, maxdepth int) (n int, err error)
 //@   requires d != nil && spanInv(&d.s) && wfT(t) && p != nil && 0 <= maxdepth && len(b) <= MAXIN
+//@   ghost lvl Int
 //@   requires t.FixedSize > 0 ==> len(b) >= t.FixedSize
+//@   requires c15_budget: maxdepth >= maxDepthLimit + 3 - 2*lvl
 //@   decreases maxdepth
+//@   call decodeType ghost lvl = lvl + 1
+//@   call Decode ghost lvl = lvl
+//@   ensures c15_zero: maxdepth == 0 ==> err == box(errDepthLimitExceeded, "*thrift.ProtocolException")
+//@   ensures c15_accept48: lvl <= 48 ==> maxdepth > 0
 //@   modifies M, fields(&d.s), $brk
 //@   ensures 0 <= n && n <= len(b)
 //@   ensures spanInv(&d.s) && old($brk) <= $brk
@@ -276,3 +287,19 @@ package reflect
 //@   loop 1 invariant p != nil && (et.IsPointer ==> sliceData != nil)
 //@   loop 1 invariant et.FixedSize > 0 ==> i + (l - j) * et.FixedSize <= len(b)
 //@   loop 1 decreases l - j
+
+// ---------------------------------------------------------------------------
+// reflect.go : API entry points
+
+// Descriptor construction is not yet under contract: assumed to return a well-formed descriptor (A-WF).
+//@ trusted func reflect.getOrcreateStructDesc(rv reflect.Value) (sd *structDesc, err error)
+//@   ensures err == nil ==> wfSD(sd)
+//@   ensures err != nil ==> sd == nil
+
+//@ trusted func reflect.panicIfHackErr()
+
+//@ func Decode(b []byte, v any) (n int, err error)
+//@   requires len(b) <= MAXIN
+//@   modifies M, $brk
+//@   call Decode ghost lvl = 1
+//@   ensures 0 <= n && n <= len(b)
